@@ -217,3 +217,17 @@ Theorem C07_first_state_info :
   did_doc (pre ++ VMStateInfo p :: post) = DDoc (Some p).
 Proof. exact did_doc_first. Qed.
 Print Assumptions C07_first_state_info.
+
+(* On the credential's whole proof list: exactly the FIRST proof of the requested type is the one
+   whose core claim is bound to the credential and which is verified; later proofs (of any type)
+   and earlier proofs of other types play no role.  An entry = (its type is the requested one?,
+   what VerifyProof's steps find for it). *)
+Theorem C07_verify_proof_list :
+  forall (B : Type) (check : B -> res unit) (ps : list (bool * vp_input B)),
+  verify_proof_list check ps = Ok tt <->
+  exists pre i post,
+    ps = pre ++ (true, i) :: post /\ Forall (fun p => fst p = false) pre /\
+    vp_claim i = true /\ vp_binding i = true /\
+    exists b, vp_typed i = Some b /\ check b = Ok tt.
+Proof. exact top_list_ok_iff. Qed.
+Print Assumptions C07_verify_proof_list.
